@@ -94,7 +94,9 @@ def _const_false(b):
     return z3.is_false(b)
 
 
-def _has_lambda_or_ite(t):
+def _has_lambda_or_ite(t, arrays=False):
+    """the term contains a lambda / quantifier / if-then-else (or, with arrays=True, a store or
+    constant-array node): such terms are given a name before contract formulas mention them"""
     seen = set()
     stack = [t]
     while stack:
@@ -107,6 +109,8 @@ def _has_lambda_or_ite(t):
             return True          # lambda (or a quantified sub-term)
         if z3.is_app(x):
             if x.decl().kind() == z3.Z3_OP_ITE:
+                return True
+            if arrays and x.decl().kind() in (z3.Z3_OP_STORE, z3.Z3_OP_CONST_ARRAY):
                 return True
             stack.extend(x.children())
     return False
@@ -322,14 +326,14 @@ class Executor(object):
                 raise Undecided('%s outside a loop' % kind)
         return self.obls
 
-    def name_value(self, st, v, hint, scalars=False):
+    def name_value(self, st, v, hint, scalars=False, keep_literals=False):
         """Give a compound ground term a name (fresh constant), so that contract formulas and
         quantifier patterns mention constants rather than store/lambda towers."""
         if isinstance(v, (PyTuple, PyDict)) or v.t is None or not is_ground(v.ty):
             return v
         if not z3.is_expr(v.t) or z3.is_const(v.t):
             return v
-        if not isinstance(v.ty, (IntT, FloatT, BoolT)) and not _has_lambda_or_ite(v.t) and not os.environ.get('PYVC_NAME_ALL'):
+        if not isinstance(v.ty, (IntT, FloatT, BoolT)) and not _has_lambda_or_ite(v.t, arrays=not keep_literals):
             return v              # constructor / accessor / store terms are fine inside patterns
         if isinstance(v.ty, (IntT, FloatT, BoolT)):
             if not scalars or FP.is_num(z3.simplify(v.t)) or z3.is_true(v.t) or z3.is_false(v.t):
@@ -1493,7 +1497,7 @@ class Executor(object):
         for pname, spec in case.params.items():
             if pname in args:
                 bound[pname] = self.name_value(st, self.fit_arg(st, args[pname], spec, node, pname), 'arg_' + pname,
-                                               scalars=True)
+                                               scalars=True, keep_literals=True)
             elif pname in case.defaults:
                 bound[pname] = case.defaults[pname]
             else:
